@@ -1221,10 +1221,39 @@ func (r *Resolver) answer(ctx context.Context, req, resp *dns.Msg, parentDS []dn
 	if targetMsg != nil {
 		scope = max(scope, authorityECSScope(req, targetMsg))
 	}
+	// Likewise the explanation of a failed alias target: it was set on the
+	// OPT this response arrived with (when it had one at all), which is
+	// about to be replaced.
+	var ede *dns.EDNS0_EDE
+	if resp.Rcode == dns.RcodeServerFailure {
+		if ede = dnsutil.GetEDE(resp); ede == nil && targetMsg != nil {
+			ede = dnsutil.GetEDE(targetMsg)
+		}
+	}
 	resp = r.clearAdditional(req, resp, extra...)
 	keepECSScope(resp, scope)
+	if ede != nil && dnsutil.GetEDE(resp) == nil {
+		if opt := ownOPT(resp); opt != nil {
+			opt.Option = append(opt.Option, &dns.EDNS0_EDE{InfoCode: ede.InfoCode, ExtraText: ede.ExtraText})
+		}
+	}
 
 	return resp, nil
+}
+
+// ownOPT makes resp's OPT record a private copy (the one clearAdditional
+// attaches is the request's own, shared with the caller and with concurrent
+// attempts) and returns it, or nil when resp has none.
+func ownOPT(resp *dns.Msg) *dns.OPT {
+	for i, rr := range resp.Extra {
+		if opt, ok := rr.(*dns.OPT); ok {
+			cp := *opt
+			cp.Option = append([]dns.EDNS0(nil), opt.Option...)
+			resp.Extra[i] = &cp
+			return &cp
+		}
+	}
+	return nil
 }
 
 // authorityECSScope returns the SCOPE PREFIX-LENGTH m declares for the client
@@ -1266,21 +1295,16 @@ func keepECSScope(resp *dns.Msg, scope uint8) {
 	if scope == 0 {
 		return
 	}
-	for i, rr := range resp.Extra {
-		opt, ok := rr.(*dns.OPT)
-		if !ok {
-			continue
-		}
-		for j, o := range opt.Option {
-			if s, ok := o.(*dns.EDNS0_SUBNET); ok && s.SourceScope != scope {
-				cp := *opt
-				cp.Option = append([]dns.EDNS0(nil), opt.Option...)
-				sc := *s
-				sc.SourceScope = scope
-				cp.Option[j] = &sc
-				resp.Extra[i] = &cp
-				return
-			}
+	if s := subnetOption(resp); s == nil || s.SourceScope == scope {
+		return
+	}
+	opt := ownOPT(resp)
+	for j, o := range opt.Option {
+		if s, ok := o.(*dns.EDNS0_SUBNET); ok {
+			sc := *s
+			sc.SourceScope = scope
+			opt.Option[j] = &sc
+			return
 		}
 	}
 }
